@@ -1,3 +1,4 @@
 import Geo.Props.C04
 open Geo
-#print axioms C04_placeholder
+#print axioms T04_2_elementwise
+#print axioms T04_3_mask_positionwise
